@@ -108,12 +108,13 @@ func (r *sharedReader) Read(name string, rd io.Reader) ([]*lisp.LVal, error) {
 // --------------------------------------------------------------- generator
 
 type ilvGen struct {
-	r    *Rand
-	litN int
-	prN  int
-	defs []*Node
-	lits []string // names of literal-returning functions
-	kind map[string]string
+	r         *Rand
+	litN      int
+	prN       int
+	defs      []*Node
+	lits      []string // names of literal-returning functions
+	kind      map[string]string
+	needConst bool
 }
 
 func (g *ilvGen) intLits(n int) []*Node {
@@ -130,7 +131,14 @@ func (g *ilvGen) newLit() string {
 	name := fmt.Sprintf("lit%d", g.litN)
 	var lit *Node
 	kind := "list"
-	switch g.r.Pick([]int{6, 3, 2, 2, 1}) {
+	ints := func(n int) string {
+		parts := make([]string, n)
+		for i := range parts {
+			parts[i] = fmt.Sprint(g.r.Range(0, 9))
+		}
+		return strings.Join(parts, " ")
+	}
+	switch g.r.Pick([]int{6, 3, 2, 2, 1, 4, 3, 2, 2}) {
 	case 0:
 		lit = Q(L(g.intLits(g.r.Range(2, 6))...))
 	case 1:
@@ -142,9 +150,24 @@ func (g *ilvGen) newLit() string {
 	case 3:
 		kind = "strs"
 		lit = Q(L(Str("b"), Str("a"), Str("c")))
-	default:
+	case 4:
 		kind = "syms"
 		lit = Q(L(A("kb"), A("ka"), A("kc")))
+	case 5:
+		// reader-level quote
+		lit = A("'(" + ints(g.r.Range(2, 6)) + ")")
+	case 6:
+		// quote of quote: the operand reaches the value domain through eval
+		kind = "qq"
+		lit = Call("eval", A("''("+ints(g.r.Range(2, 6))+")"))
+	case 7:
+		kind = "bracket"
+		lit = Call("eval", A("'["+ints(g.r.Range(2, 5))+"]"))
+	default:
+		// a macro that returns its (quoted) argument
+		kind = "macro-const"
+		g.needConst = true
+		lit = Call("constant", A("''("+ints(g.r.Range(2, 6))+")"))
 	}
 	g.defs = append(g.defs, L(A("defun"), A(name), L(), lit))
 	g.lits = append(g.lits, name)
@@ -201,7 +224,24 @@ func (g *ilvGen) less() *Node {
 // mutate applies an in-place or capacity-sensitive builtin to a view.
 func (g *ilvGen) mutate() *Node {
 	v := g.view(g.r.Range(0, 2))
-	switch g.r.Pick([]int{8, 3, 4, 3, 3, 2, 2, 2, 2, 2, 2, 1, 3}) {
+	switch g.r.Pick([]int{8, 3, 4, 3, 3, 2, 2, 2, 2, 2, 2, 1, 3, 4, 2, 4, 2}) {
+	case 13:
+		// the literal's elements become a callee's &rest list
+		body := PickNode(g.r, Call("stable-sort", A("<"), A("xs")), Call("append!", A("xs"), I(30)), Call("stable-sort", A("<"), Call("cdr", A("xs"))))
+		return Call(PickStr(g.r, []string{"apply", "unpack"}), L(A("lambda"), L(A("&rest"), A("xs")), body), v)
+	case 14:
+		return Call("apply", L(A("lambda"), L(A("a"), A("&rest"), A("xs")), Call("stable-sort", A("<"), A("xs"))), I(0), v)
+	case 15:
+		// threading macros build a call form from a form of the program; the
+		// threaded value differs between runtimes and loads (ctr)
+		n := g.r.Range(0, 5)
+		call := []*Node{A("+")}
+		for i := 0; i < n; i++ {
+			call = append(call, I(g.r.Range(1, 9)))
+		}
+		return Call(PickStr(g.r, []string{"thread-last", "thread-first"}), A("ctr"), L(call...), L(A("*"), I(2)))
+	case 16:
+		return Call(PickStr(g.r, []string{"thread-last", "thread-first"}), v, L(A("map"), QS("list"), L(A("lambda"), L(A("x")), Call("+", A("x"), A("ctr")))))
 	case 12:
 		// zero-value appends return a value that may still share the input's storage
 		return Call("stable-sort", g.less(), Call("append", QS(PickStr(g.r, []string{"vector", "list"})), v))
@@ -296,7 +336,11 @@ func (ilvEngine) Gen(r *Rand, tier string) any {
 		body = append(body, g.litProbe(l))
 	}
 	// definitions for macros msort/mapp/mtpl may be absent: references then fail the same way everywhere
-	c.Forms = append(g.defs, body...)
+	pre := []*Node{Call("set", QS("ctr"), Call("+", I(1), Call("or", Call("ignore-errors", A("ctr")), I(0))))}
+	if g.needConst {
+		pre = append(pre, L(A("defmacro"), A("constant"), L(A("x")), A("x")))
+	}
+	c.Forms = append(append(pre, g.defs...), body...)
 
 	nrt := r.Range(2, 4)
 	for i := 0; i < nrt; i++ {
@@ -626,6 +670,9 @@ func (ilvEngine) Run(ci any, st *Stats) *Violation {
 			for _, f := range c.Forms {
 				if f.Head() == "defun" && len(f.List) > 1 && strings.HasPrefix(f.List[1].Atom, "lit") {
 					defs = append(defs, f)
+				}
+				if f.Head() == "defmacro" && len(f.List) > 1 && f.List[1].Atom == "constant" {
+					defs = append([]*Node{f}, defs...)
 				}
 			}
 			pw.Load(defs)
